@@ -81,6 +81,17 @@ Derived(t) ==
     Src("assertion", <<SDecl("v", T_any)>>, EAssert(EVar("v", T_any), t), FALSE),
     Src("callresult", <<>>, [k |-> "call", f |-> "g", xs |-> <<>>, ty |-> t, cn |-> FALSE], FALSE) }
 
+\* literals whose elements have different types or are untyped empties, in every order (strictest common type:
+\* "an array composed of different types becomes an array of type any"), and concatenations of empties of different depth
+MixEls == << ENum(I(1)), EStr(<<97>>), EArr(<<>>), EMap(<<>>, <<>>), EArr(<<ENum(I(1))>>), EMap(<<K_k>>, <<ENum(I(1))>>), EArr(<<EArr(<<>>)>>) >>
+MixLits == { Src("mixlit", <<>>, EArr(<<MixEls[i], MixEls[j]>>), TRUE) : i \in DOMAIN MixEls, j \in DOMAIN MixEls }
+           \cup { Src("mixlit", <<>>, EMap(<<K_k, <<106>>>>, <<MixEls[i], MixEls[j]>>), TRUE) : i \in DOMAIN MixEls, j \in DOMAIN MixEls }
+           \cup { Src("mixlit3", <<>>, EArr(<<MixEls[i], MixEls[j], MixEls[i]>>), TRUE) : i \in 1..4, j \in 3..7 }
+           \cup { Src("emptyconcat", <<>>, EBin("+", ab[1], ab[2]), TRUE) :
+                    ab \in { xy \in {EArr(<<>>), EArr(<<EArr(<<>>)>>), EArr(<<EMap(<<>>, <<>>)>>), EArr(<<EArr(<<EArr(<<>>)>>)>>), EArr(<<EArr(<<ENum(I(1))>>)>>)}
+                                      \X {EArr(<<>>), EArr(<<EArr(<<>>)>>), EArr(<<EArr(<<ENum(I(1))>>)>>)} : BinOpType("+", xy[1].ty, xy[2].ty).ok } }
+MixTargets == {TArr(T_num), TArr(T_any), TArr(T_str), TArr(TArr(T_num)), TArr(TArr(T_any)), TMap(T_num), TMap(T_any), T_any}
+
 Sources == UNION {LitVar(t) : t \in {TArr(T_num), TMap(T_num), TArr(T_any), TArr(TArr(T_num))}} \cup InferredEmptyVar
            \cup UNION {Derived(t) : t \in {T_num, TArr(T_num), TMap(T_num), TArr(T_str)}}
            \cup {VarSrc(t) : t \in Universe} \cup {LitSrc(t) : t \in Universe \ {T_any}} \cup Empties
@@ -120,6 +131,7 @@ Universe2 == IF Tier = "quick" THEN {T_num, T_any, TArr(T_num), TArr(T_any), TMa
 ContextCells == UNION {{AssignCell(t, s)} : t \in Universe, s \in Sources}
                 \cup UNION {{FieldCell(t, s), ParamCell(t, s), VariadicCell(t, s), ReturnCell(t, s)} : t \in Universe2, s \in Sources}
                 \cup {InferCell(s) : s \in Sources}
+                \cup {InferCell(s) : s \in MixLits} \cup {AssignCell(t, s) : t \in MixTargets, s \in MixLits}
 
 \* ---- operators, index, slice, field, assertion, condition, range on variables of given types
 OpTypes == Types1 \cup {TArr(TArr(T_num))}
